@@ -140,18 +140,55 @@ PROPS["C11"] = {
 PROPS["C16"] = {
     "skeleton_fns": CLUSTER + PLANNER + ["httpserver_Config_Equal"],
     "lean_modules": ["GoSup.Props.C16"],
-    "theorems": [],
+    "theorems": ["GoSup.Props.C16.commit_clean", "GoSup.Props.C16.processExisting_cases", "GoSup.Props.C16.plan_fails_with_clash"],
     "ties": [],
-    "legs": [{"name": "planner", "cmd": "planner"}],
+    "legs": [{"name": "planner", "cmd": "planner"}, {"name": "cluster", "cmd": "cluster"}],
     "rule": "planner (newEntries/buildPendingEntries/getPendingActions/commit through the verif export) on seeded (current, desired) "
             "pairs over an id pool containing a, a:stop, a:stop:stop, b:stop, the empty id, prefixes and suffixes; nil configs; "
             "result compared with the model (for clashing ids: membership in the set of model results over all iteration orders) "
-            "and Spec.C16.planOk. Non-trivial = the plan starts or stops something; distinct by (current, desired).",
+            "and Spec.C16.planOk. Non-trivial = the plan starts or stops something; distinct by (current, desired). Cluster leg: the real "
+            "httpcluster.Runner with instrumented server runners (factory through the verif export, 40 ms readiness deadline) over "
+            "sequences of 1-6 configuration maps on pools of 5-7 ids (one pool with a, a:stop, a:stop:stop, b:stop), configs "
+            "equal/changed/nil, factory errors, never-ready servers and slow stops per id, ended by Stop, cancel or siphon close after "
+            "any number of pushes; after every processed map: running instances, GetServerCount, cluster state; oracle "
+            "Spec.Cluster.holds; every history is also replayed on the Lean update model (Cluster.applyUpdate over the planner).",
     "assumptions": [],
     "trusted_base": [],
     "level_text": "Theorems about the diff planner over finite maps of any size under the NoClash precondition; cluster model.",
     "level_note": COMMON_NOTE,
     "design_ref": "DESIGN.md section 5, C16",
+}
+
+PROPS["C17"] = {
+    "skeleton_fns": [],
+    "lean_modules": ["GoSup.Props.C17", "GoSup.Tie.C17"],
+    "theorems": ["GoSup.Props.C17.discipline_sound"],
+    "ties": ["GoSup.Tie.C17.tie_discipline"],
+    "legs": [{"name": "race", "cmd": "race", "race": True, "timeout": 3000}],
+    "rule": "static: the extractor lists every access (read, write, method call on a field) to every field of PIDZero, lifecycle.StartStop "
+            "and the composite/httpserver/httpcluster Runner structs with the mutexes certainly held there (intraprocedural lock-set "
+            "scan, callers' locks propagated through internal call sites to depth 4); the kernel evaluates the discipline on that "
+            "table on every run. Dynamic: a harness built with the Go race detector runs seeded random programs of 3-4 goroutines "
+            "calling the public API (state queries, String, GetStateMap/GetCurrentStates, SendSignal, subscriptions, Reload, "
+            "configuration pushes, GetServerCount, GetChildStates) against a live supervisor, composite (membership-changing reloads), "
+            "HTTP server on a loopback socket (also with the context cancelled before Run) and HTTP cluster, continuing while "
+            "Shutdown/Stop is in progress; every report whose stacks contain library frames is a failing input (the report is the replay). "
+            "Non-trivial = every program; distinct by (target, seed).",
+    "assumptions": ["the race detector observes only the schedules that occurred; absence of a report is not a proof - the theorem is "
+                    "about the lock machine, the table ties it to the code",
+                    "fields of type sync.Map, atomic.*, channels, sync.Once and the FSM (own mutex) are synchronisation objects and are "
+                    "treated as safe; fields never written after construction are safe",
+                    "three fields are ordered by a protocol instead of one mutex (lean/GoSup/Expected/Guards.lean, each with its "
+                    "justification); for those only the race-detector runs apply"],
+    "trusted_base": ["lock-set scan of tools/extract (intraprocedural, defer-aware; aliasing through local copies of struct pointers is "
+                     "not tracked)", "Go race detector"],
+    "level_text": "Theorem: in the lock machine (any number of threads, RW locks, variables, any schedule) a table of accesses that "
+                  "obeys the discipline (every write under the exclusive lock of the variable's guard, every read under at least the "
+                  "shared lock) has no reachable state with two conflicting accesses in progress. Tie: the access table regenerated "
+                  "from the source obeys the discipline (decide +kernel).",
+    "level_note": COMMON_NOTE + "Partial: accesses to data reachable through the fields (maps, slices, configs behind pointers) are "
+                  "attributed to the field that holds them; values handed out to callers (e.g. a returned map) are not followed.",
+    "design_ref": "DESIGN.md section 5, C17",
 }
 
 PROPS["C07"] = {
